@@ -374,20 +374,23 @@ def file_script(rng, path, length, seed, tags, prefix=0):
     """updmm / updmmr / updfile on a file whose bytes are pat <length> <seed>, against `H upd`"""
     mode = _mode(rng)
     s = IoScript(tags=tags)
-    for r in "abcd":
+    for r in "abcdef":
         s.op(f"H new {r} {mode}", "ok")
     if prefix:
         sd = _seed(rng)
-        for r in "abcd":
+        for r in "abcdef":
             s.op(f"H upd {r} pat {prefix} {sd}", "ok")
     s.op(f"H updmm a {path}", "ok")
     s.op(f"H updmmr b {path}", "ok")
     s.op(f"H updfile c {path}", "ok")
     s.op(f"H upd d pat {length} {seed}", "ok")
-    for r in "abcd":
+    # update_mmap_rayon inside explicit pools: one thread, and a few
+    s.op(f"H updmmrp e 1 {path}", "ok")
+    s.op(f"H updmmrp f {rng.choice([2, 3, 4, 16])} {path}", "ok")
+    for r in "abcdef":
         s.op(f"H cnt {r}", str(prefix + length))
-    fins = [s.op(f"H fin {r}") for r in "abcd"]
-    s.equal += [(fins[0], fins[3]), (fins[1], fins[3]), (fins[2], fins[3])]
+    fins = [s.op(f"H fin {r}") for r in "abcdef"]
+    s.equal += [(fins[0], fins[3]), (fins[1], fins[3]), (fins[2], fins[3]), (fins[4], fins[3]), (fins[5], fins[3])]
     s.plan = py_mmap_plan_regular(length)
     return s
 
@@ -526,11 +529,13 @@ def file_scripts(rng, tmpdir, fifo=True):
     if os.path.exists(p) and os.access(p, os.R_OK):
         out.append(compare_script(rng, p, ("special", "unmappable", p)))
     # /dev/null: the seek returns 0, reads give EOF at once
-    s = compare_script(rng, "/dev/null", ("special", "/dev/null"))
-    for i, line in enumerate(s):
-        if line.startswith("H cnt"):
-            s.expect[i] = "0"
-    out.append(s)
+    import stat as _stat
+    if _stat.S_ISCHR(os.stat("/dev/null").st_mode):     # (a sandbox in which something replaced /dev/null by a regular file is not the property's subject)
+        s = compare_script(rng, "/dev/null", ("special", "/dev/null"))
+        for i, line in enumerate(s):
+            if line.startswith("H cnt"):
+                s.expect[i] = "0"
+        out.append(s)
     # a directory opens but cannot be read; a missing path does not open
     d = os.path.join(tmpdir, "a_directory")
     os.makedirs(d, exist_ok=True)
